@@ -242,3 +242,14 @@ Theorem double_to_quarter_boundaries : (forall i, 0 <= i < 123 ->
   (forall f, q_search 9 0 (quarters_infinity_index - 1) f <> None).
 Proof. exact (conj QuarterProofs.double_to_quarter_boundaries QuarterProofs.d2q_search_total). Qed.
 Print Assumptions double_to_quarter_boundaries.
+
+(** CSV: the reader never returns an empty row or a row of one empty field, for ANY grammar and ANY input: `representable` is exactly what can come back *)
+Theorem csv_read_rows_representable : forall g txt rows, csv_read g txt = Some rows -> forallb representable rows = true.
+Proof. exact CsvProofs.csv_read_rows_representable. Qed.
+Print Assumptions csv_read_rows_representable.
+
+(** CSV: whatever the reader accepts (hostile text included) can be written and is read back unchanged *)
+Theorem csv_read_write_read : forall g, wf g -> forall txt rows, csv_read g txt = Some rows ->
+  exists txt', csv_write g rows = Some txt' /\ csv_read g txt' = Some rows.
+Proof. exact CsvProofs.csv_read_write_read. Qed.
+Print Assumptions csv_read_write_read.
